@@ -304,6 +304,9 @@ HEADS = {
     "lit": lambda: [FromLit([{"a": 1, "b": 2, "c": 3}, {"a": 4, "b": -1, "c": 0}, {"a": -2, "b": 5, "c": 7}])],
     "wild": lambda: [From(CFG["t"])],
     "sel": lambda: [From(CFG["t"]), Select(*CFG["cols"])],
+    # table alias: references through the alias, `FROM t AS e`
+    "alias": lambda: [From(CFG["t"], alias="e"), Select(*["e." + c for c in CFG["cols"]])],
+    "alias_wild": lambda: [From(CFG["t"], alias="e")],
 }
 
 
@@ -451,6 +454,7 @@ def family_c01(tier, seed):
         l2, l3 = l2[:300], l3[:150]
     out += l2 + l3 + targeted_let_family() + targeted_distinct_family() + targeted_group_take_family()
     out += list(enumerate_family(1 if tier == "quick" else 2, heads=("lit",)))
+    out += list(enumerate_family(1 if tier == "quick" else 2, heads=("alias", "alias_wild")))
     if tier == "quick":
         out += list(enumerate_family(2))
         rnd = random.Random(seed)
@@ -755,7 +759,7 @@ def targeted_sort_join_take_family():
 def family_c03(tier, seed):
     """every pipeline (explicit-column head) that contains at least one sort, over the sort/take-centred alphabet"""
     names = ["sort_asc", "sort_desc2", "sort_last_desc", "take_n", "take_2", "take_range", "take_open", "select_2", "select_comp", "select_first",
-             "select_last", "derive_add", "filter_gt", "filter_null", "join_inner", "join_left", "group_agg", "agg",
+             "select_last", "derive_add", "filter_gt", "filter_null", "join_inner", "join_left", "join_right", "join_full", "group_agg", "agg",
              "group_take", "rownum", "distinct"]
     out = []
     L = 3
@@ -896,6 +900,18 @@ def family_c04(tier, seed):
         ("x:group-rank-filter", [From("t"), Select("a", "b", "c"), Group(["a"], Sort("c"), Derive(r=Fn("rank", c))), Filter(C("r") == 1)]),
         ("x:window-sort-inside", [From("t"), Select("a", "b"), Window(Sort("a"), Derive(w=s()), rows=(-1, 0))]),
     ]
+    # a whole-partition aggregate BEFORE a framed window (and between two framed windows): the frame must not leak backwards
+    for fname, fkw in [("rolling2", dict(rolling=2)), ("expanding", dict(expanding=True)), ("rows-1..0", dict(rows=(-1, 0))), ("rows0..1", dict(rows=(0, 1))),
+                       ("range-1..0", dict(range=(-1, 0)))]:
+        W = lambda: Window(Derive(w=s()), **fkw)
+        extra += [
+            (f"x:agg-before-win:{fname}", [From("t"), Select("a", "b"), Sort("a"), Derive(tot=s(), m=Fn("max", b)), W()]),
+            (f"x:agg-before-win-count:{fname}", [From("t"), Select("a", "b"), Sort("a"), Derive(n=Fn("count", b), lo=Fn("min", b)), W()]),
+            (f"x:filter-agg-before-win:{fname}", [From("t"), Select("a", "b"), Sort("a"), Filter(Fn("min", b) <= b), Filter(b <= Fn("max", b)), W()]),
+            (f"x:select-agg-before-win:{fname}", [From("t"), Sort("a"), Select("a", "b", tot=s()), W()]),
+            (f"x:group-agg-before-win:{fname}", [From("t"), Select("a", "b", "c"), Group(["a"], Sort("c"), Derive(tot=s()), W())]),
+            (f"x:win-agg-win:{fname}", [From("t"), Select("a", "b"), Sort("a"), Window(Derive(v=Fn("max", b)), rows=(0, 1)), Derive(tot=s()), W()]),
+        ]
     for tag, pipe in extra:
         prog = Prog(pipe)
         prog.features = {"extra"}
